@@ -371,6 +371,14 @@ func (cz *canonizer) c(v ssa.Value, withBase bool) string {
 		}
 		return "call#" + v.Name() + ":" + calleeLabel(v.Common())
 	case *ssa.Phi:
+		if x, m, ok := wrapIncPhi(v); ok {
+			// "n := x+1; if n == m { n = 0 }" is x+1 modulo m (for x < m): render it like the % form
+			a, b := "1", cz.c(x, withBase)
+			if b < a {
+				a, b = b, a
+			}
+			return "((" + a + "+" + b + ")%" + cz.c(m, withBase) + ")"
+		}
 		if cz.key {
 			return "phi:" + v.Comment
 		}
@@ -761,6 +769,36 @@ func (rg *Ranger) eval(v ssa.Value, facts []Fact, depth int) Range {
 				r = Range{n, n, false}
 			}
 		}
+		if b, ok := v.Call.Value.(*ssa.Builtin); ok && (b.Name() == "min" || b.Name() == "max") && len(v.Call.Args) > 0 && isInteger(v.Type()) {
+			first := true
+			for _, a := range v.Call.Args {
+				ar := rg.eval(a, facts, depth+1)
+				if ar.empty {
+					first = true
+					r = full
+					break
+				}
+				if first {
+					r, first = ar, false
+					continue
+				}
+				if b.Name() == "min" {
+					if ar.lo < r.lo {
+						r.lo = ar.lo
+					}
+					if ar.hi < r.hi {
+						r.hi = ar.hi
+					}
+				} else {
+					if ar.lo > r.lo {
+						r.lo = ar.lo
+					}
+					if ar.hi > r.hi {
+						r.hi = ar.hi
+					}
+				}
+			}
+		}
 	case *ssa.Parameter:
 		r = rg.paramRange(v, depth).meet(full)
 	}
@@ -1085,6 +1123,21 @@ func (rg *Ranger) minLen(x ssa.Value, facts []Fact) int64 {
 // lenAtLeastExpr reports whether facts contain len(x) >= e for an expression
 // canonically equal to e.
 func (rg *Ranger) lenAtLeastExpr(x, e ssa.Value, facts []Fact) bool {
+	// e = min(..., len(x), ...) is <= len(x) by construction
+	if call, ok := e.(*ssa.Call); ok {
+		if b, ok := call.Call.Value.(*ssa.Builtin); ok && b.Name() == "min" {
+			for _, a := range call.Call.Args {
+				if lc, ok := a.(*ssa.Call); ok {
+					if lb, ok := lc.Call.Value.(*ssa.Builtin); ok && lb.Name() == "len" && rg.sameValue(lc.Call.Args[0], x) {
+						return true
+					}
+				}
+				if rg.lenAtLeastExpr(x, a, facts) {
+					return true
+				}
+			}
+		}
+	}
 	ce := rg.w.canon(e)
 	for _, f := range facts {
 		bo, ok := f.Cond.(*ssa.BinOp)
@@ -1461,4 +1514,90 @@ func edgeFeasible(p, s *ssa.BasicBlock) bool {
 		}
 	}
 	return true
+}
+
+// wrapIncPhi recognises the conditional-wrap form of a modular increment:
+//
+//	n := x + 1
+//	if n == m {   // or n >= m
+//		n = 0
+//	}
+//
+// i.e. a two-edge phi whose one operand is the constant 0 arriving under the fact
+// x+1 == m (or x+1 >= m) and whose other operand is x+1 arriving under its negation.
+// For x < m this equals (x+1) % m.
+func wrapIncPhi(phi *ssa.Phi) (x, m ssa.Value, ok bool) {
+	if len(phi.Edges) != 2 {
+		return nil, nil, false
+	}
+	for zi := 0; zi < 2; zi++ {
+		k, isK := intConst(phi.Edges[zi])
+		if !isK || k != 0 {
+			continue
+		}
+		inc, isAdd := phi.Edges[1-zi].(*ssa.BinOp)
+		if !isAdd || inc.Op != token.ADD {
+			continue
+		}
+		var base ssa.Value
+		if c, ok := intConst(inc.Y); ok && c == 1 {
+			base = inc.X
+		} else if c, ok := intConst(inc.X); ok && c == 1 {
+			base = inc.Y
+		} else {
+			continue
+		}
+		blk := phi.Block()
+		// the zero edge must carry "inc == m" / "inc >= m", the other edge its negation
+		reached := func(facts []Fact, want bool) ssa.Value {
+			for _, f := range facts {
+				bo, ok := f.Cond.(*ssa.BinOp)
+				if !ok {
+					continue
+				}
+				var other ssa.Value
+				op := bo.Op
+				switch {
+				case bo.X == ssa.Value(inc):
+					other = bo.Y
+				case bo.Y == ssa.Value(inc):
+					other = bo.X
+					switch op {
+					case token.LSS:
+						op = token.GTR
+					case token.LEQ:
+						op = token.GEQ
+					case token.GTR:
+						op = token.LSS
+					case token.GEQ:
+						op = token.LEQ
+					}
+				default:
+					continue
+				}
+				// holds(inc == other or inc >= other) ?
+				var holds, decided bool
+				switch op {
+				case token.EQL:
+					holds, decided = f.Val, true
+				case token.NEQ:
+					holds, decided = !f.Val, true
+				case token.GEQ:
+					holds, decided = f.Val, true
+				case token.LSS:
+					holds, decided = !f.Val, true
+				}
+				if decided && holds == want {
+					return other
+				}
+			}
+			return nil
+		}
+		mz := reached(factsOnEdge(blk.Preds[zi], blk), true)
+		mo := reached(factsOnEdge(blk.Preds[1-zi], blk), false)
+		if mz != nil && mo != nil && mz == mo {
+			return base, mz, true
+		}
+	}
+	return nil, nil, false
 }
